@@ -55,6 +55,8 @@ pub struct C14 {
     pub scribble: bool,
     /// the source overrides `read_exact` with an all-or-nothing version (io::Cursor-like)
     pub r_exact: bool,
+    /// replay both lanes this many more times before the benign default takes over
+    pub lane_repeat: u32,
 }
 
 const HOSTILE_MIN: u32 = 600 * 1024;
@@ -136,9 +138,10 @@ fn writer_phase(s: &C14, obs: &Rc<RefCell<Obs>>) -> Result<Written, Violation> {
     let total: u64 = payloads.iter().flatten().map(|p| p.len() as u64 + 4).sum();
     // a benign write_all takes one call per frame; scripted short writes at most one extra call per lane step
     // implementation-agnostic: even a writer that offered one byte per call would stay below this
-    let budget = s.w_sink.len() as u64 + 8 * (n + 1) + 64 + 2 * total;
+    let budget = s.w_sink.len() as u64 * (1 + s.lane_repeat as u64) + 8 * (n + 1) + 64 + 2 * total;
     let core = SinkCore::new(s.w_sink.clone(), None, budget, obs.clone());
     core.borrow_mut().allow_fatal = s.w_fatal;
+    core.borrow_mut().repeat_left = s.lane_repeat;
     {
         let mut layout = Layout::default();
         let mut off = 0;
@@ -398,11 +401,12 @@ impl<'a> FamVisitor for RVisit<'a> {
         // ---- world
         let n = expected.len() as u64;
         // implementation-agnostic: even a reader that asked for one byte per call would stay below this
-        let budget = s.r_src.len() as u64 + 8 * (n + 2) + 64 + 2 * stream.len() as u64;
+        let budget = s.r_src.len() as u64 * (1 + s.lane_repeat as u64) + 8 * (n + 2) + 64 + 2 * stream.len() as u64;
         let core = SrcCore::new(stream.clone(), s.r_src.clone(), layout, budget, obs.clone());
         core.borrow_mut().allow_fatal = s.r_fatal;
         core.borrow_mut().scribble = s.scribble;
         core.borrow_mut().exact_override = s.r_exact;
+        core.borrow_mut().repeat_left = s.lane_repeat;
         let init = garbage(s.r_init_buf as usize);
         let init_cap = init.capacity();
         let mut reader = Reader::with_buffer(SimSource(core.clone()), init);
@@ -607,6 +611,7 @@ impl Scenario for C14 {
             .set("touch", self.touch)
             .set("scribble", self.scribble)
             .set("r_exact", self.r_exact)
+            .set("lane_repeat", self.lane_repeat)
     }
     fn from_json(j: &Json) -> Result<Self, String> {
         let u = |k: &str| j.get(k).and_then(|c| c.as_u64()).unwrap_or(0);
@@ -632,6 +637,7 @@ impl Scenario for C14 {
             touch: b("touch"),
             scribble: b("scribble"),
             r_exact: b("r_exact"),
+            lane_repeat: j.get("lane_repeat").and_then(|c| c.as_u64()).unwrap_or(0) as u32,
         })
     }
     fn run(&self, obs: &mut Obs) -> Result<(), Violation> {
@@ -708,6 +714,11 @@ impl Scenario for C14 {
         reset!(touch, false);
         reset!(scribble, false);
         reset!(r_exact, false);
+        reset!(lane_repeat, 0);
+        if self.lane_repeat > 1 {
+            out.push(C14 { lane_repeat: self.lane_repeat / 2, ..self.clone() });
+            out.push(C14 { lane_repeat: self.lane_repeat - 1, ..self.clone() });
+        }
         if self.family != Ty::Str && self.family != Ty::U64 {
             for t in [Ty::U64, Ty::Str] {
                 let items: Vec<WKind> = self
@@ -749,6 +760,7 @@ fn base(family: Ty, items: Vec<WKind>) -> C14 {
         touch: false,
         scribble: false,
         r_exact: false,
+        lane_repeat: 0,
     }
 }
 
@@ -1055,6 +1067,7 @@ impl Property for P14 {
             touch: r.chance(1, 3),
             scribble: r.chance(1, 3),
             r_exact: r.chance(1, 3),
+            lane_repeat: gen_repeat(r, shape.history || shape.marathon),
         }
     }
 
